@@ -233,6 +233,19 @@ func verifAppend(s *storage, e *entry) {
 	verifPointS(s, "append")
 }
 
+// verifLogChange announces that the raft goroutine is about to remove entries
+// from the log inside a request handler; N is the number of replications of
+// its own leadership that have not been told to stop yet.
+func verifLogChange(r *Raft, what string) {
+	if VerifEmit != nil {
+		n := 0
+		if r.ldr != nil {
+			n = len(r.ldr.repls)
+		}
+		verifEmitR(r, &VerifEv{K: "log-change", Reason: what, N: uint64(n), St: verifState(r)})
+	}
+}
+
 func verifRemoveGTEBegin(s *storage, index uint64) {
 	if VerifEmit != nil {
 		verifEmitS(s, &VerifEv{K: "trunc-begin", Idx: index})
